@@ -8,6 +8,7 @@ import (
 	"path/filepath"
 	"sort"
 	"strings"
+	"syscall"
 )
 
 var errEOF = io.EOF
@@ -18,6 +19,12 @@ type Node struct {
 	Hash   string
 	Target string
 	Size   int64
+	Ino    uint64 // not part of the comparison: used to find hard links to files outside the destination
+	Nlink  uint64
+}
+
+func sameNode(x, y Node) bool {
+	return x.Type == y.Type && x.Hash == y.Hash && x.Target == y.Target && x.Size == y.Size
 }
 
 type Snapshot map[string]Node
@@ -33,6 +40,9 @@ func Snap(root string) Snapshot {
 			return nil
 		}
 		n := Node{Size: fi.Size()}
+		if st, ok := fi.Sys().(*syscall.Stat_t); ok {
+			n.Ino, n.Nlink = st.Ino, uint64(st.Nlink)
+		}
 		switch {
 		case fi.Mode()&os.ModeSymlink != 0:
 			n.Type = "link"
@@ -86,7 +96,7 @@ func Diff(a, b Snapshot) []Change {
 			out = append(out, Change{Raw: k, Kind: "created", T: y.Type})
 		case !inB:
 			out = append(out, Change{Raw: k, Kind: "deleted", T: x.Type})
-		case x != y:
+		case !sameNode(x, y):
 			out = append(out, Change{Raw: k, Kind: "modified", T: y.Type})
 		}
 	}
@@ -120,6 +130,54 @@ func Abstract(rel string, back map[string]string, sbComps []string) []string {
 			out[i] = a
 		} else {
 			out[i] = c
+		}
+	}
+	return out
+}
+
+// Leaks lists what the operation created inside dest that resolves outside it: symlinks (created or retargeted)
+// whose target lies outside dest, and files that are hard links to a file outside dest.
+func Leaks(root, dest string, before, after Snapshot) []Change {
+	out := []Change{}
+	inside := func(rel string) bool { return rel == dest || strings.HasPrefix(rel, dest+string(filepath.Separator)) }
+	outsideIno := map[uint64]bool{}
+	for k, n := range after {
+		if !inside(k) && n.Type == "file" {
+			outsideIno[n.Ino] = true
+		}
+	}
+	keys := make([]string, 0, len(after))
+	for k := range after {
+		keys = append(keys, k)
+	}
+	sort.Strings(keys)
+	for _, k := range keys {
+		n := after[k]
+		if !inside(k) {
+			continue
+		}
+		old, had := before[k]
+		if had && sameNode(old, n) && old.Ino == n.Ino {
+			continue // planted before the operation
+		}
+		switch n.Type {
+		case "link":
+			abs := filepath.Join(root, k)
+			res, err := filepath.EvalSymlinks(abs)
+			if err != nil {
+				res = n.Target
+				if !filepath.IsAbs(res) {
+					res = filepath.Join(filepath.Dir(abs), res)
+				}
+			}
+			rel, err := filepath.Rel(root, res)
+			if err != nil || !inside(rel) {
+				out = append(out, Change{Raw: k, Kind: "symlink", T: "link"})
+			}
+		case "file":
+			if n.Nlink > 1 && outsideIno[n.Ino] {
+				out = append(out, Change{Raw: k, Kind: "hardlink", T: "file"})
+			}
 		}
 	}
 	return out
